@@ -172,66 +172,17 @@ def _type_size(ctx, module, name):
     return None
 
 
-@rule(P, "D13.2", "T-SPEC", floor=10)
+@rule(P, "D13.2", "T-WITNESS", floor=10)
 def d13_2(ctx):
-    """Reply offsets equal the message-router reply layout; the extended-status start equals the status offset of the same class."""
-    sp = ctx.spec("reply")
-    table = {
-        f"{PE}:SendUnitDataResponsePacket": sp["connected"],
-        f"{PE}:SendRRDataResponsePacket": sp["unconnected"],
-    }
-    for ckey_, off in table.items():
-        c = ctx.model.cls(ckey_)
-        fn = c.methods.get("_parse_reply")
-        if fn is None:
-            ctx.undecided(ckey_ + "._parse_reply", c.node, "anchor vanished")
-            continue
-        want = {"service": (off["service"], off["service"] + 1, None), "service_status": (off["general_status"], off["general_status"] + 1, 1), "data": (off["data"], None, None)}
-        for attr, (lo, hi, width) in want.items():
-            got = _slices_of(ctx, fn, c.module, c, attr)
-            if len(got) != 1:
-                ctx.violation(ckey(ckey_ + "._parse_reply", attr), fn, f"expected exactly one `self.raw[..]` slice feeding self.{attr}, found {len(got)}")
-                continue
-            glo, ghi, dec, st = got[0]
-            good = glo == lo and ghi == hi
-            if good and width is not None:
-                good = dec is not None and _type_size(ctx, c.module, dec) == width
-            ctx.check(good, ckey(ckey_ + "._parse_reply", attr), st, f"self.{attr} read at the specified offset",
-                      f"self.{attr} is read from raw[{glo}:{ghi}] (decoder {dec}); the reply layout puts it at [{lo}:{hi}]", got=[glo, ghi, dec], spec=[lo, hi])
-        # extended status start
-        for mname in ("command_extended_status", "service_extended_status"):
-            m = c.methods.get(mname)
-            if m is None:
-                continue
-            for call in walk(m):
-                if isinstance(call, ast.Call) and call_name(call) == "get_extended_status":
-                    start = ctx.folder.eval(call.args[1], c.module, cls=c) if len(call.args) > 1 else UNKNOWN
-                    first = attr_path(call.args[0]) if call.args else None
-                    ctx.check(start == off["general_status"] and first == "self.raw", ckey(f"{ckey_}.{mname}", "start"), call,
-                              "extended status read from the general-status offset of this transport",
-                              f"get_extended_status({first}, {start}) does not start at the general status offset {off['general_status']}", got=start, spec=off["general_status"])
-    # encapsulation fields in the base parser
-    base = ctx.model.cls(f"{PB}:ResponsePacket")
-    fn = base.methods.get("_parse_reply")
-    enc = sp["encapsulation"]
-    for attr, (lo, hi), width in (("command", enc["command"], None), ("command_status", enc["status"], 4)):
-        got = _slices_of(ctx, fn, base.module, base, attr) if fn else []
-        if len(got) != 1:
-            ctx.violation(ckey(base.key + "._parse_reply", attr), fn or base.node, f"expected one slice feeding self.{attr}, found {len(got)}")
-            continue
-        glo, ghi, dec, st = got[0]
-        good = (glo, ghi) == (lo, hi) and (width is None or (dec and _type_size(ctx, base.module, dec) == width))
-        ctx.check(good, ckey(base.key + "._parse_reply", attr), st, f"encapsulation {attr} at [{lo}:{hi}]",
-                  f"encapsulation {attr} read from raw[{glo}:{ghi}] with {dec}; header puts it at [{lo}:{hi}]", got=[glo, ghi, dec], spec=[lo, hi])
-    reg = ctx.model.cls(f"{PE}:RegisterSessionResponsePacket")
-    got = _slices_of(ctx, reg.methods["_parse_reply"], reg.module, reg, "session") if "_parse_reply" in reg.methods else []
-    lo, hi = enc["session"]
-    good = len(got) == 1 and (got[0][0], got[0][1]) == (lo, hi) and got[0][2] and _type_size(ctx, reg.module, got[0][2]) == 4
-    ctx.check(good, ckey(reg.key + "._parse_reply", "session"), got[0][3] if got else reg.node, "session handle at [4:8] as a 4-byte integer",
-              "session handle is not read from raw[4:8] with a 4-byte decoder", got=[g[:3] for g in got])
-    # extended status reader (status byte, size byte counted in words, the word(s) read with the width the size says): decided by
-    # folding get_extended_status on witness replies (D13.8: one-word extended codes at both offsets, no extended words, unknown
-    # code, unknown size) - an earlier form matched the `if size == n` ladder and alarmed when it became a table lookup
+    """Reply offsets equal the message-router reply layout (connected: service 46, general status 48, data 50; unconnected: 40, 42,
+    44), the encapsulation command / status / session sit at [0:2] / [8:12] / [4:8], and the extended status is read from the
+    general-status offset of the same transport.  Decided by constructing the response classes on witness replies laid out as the
+    specification says and comparing every field (D13.9 and the reply groups of D1.12 / D14.8 / D10.10 / D16.7), and by folding the
+    extended-status reader (D13.8); an earlier form looked for `self.raw[a:b]` slices and alarmed when the bounds became named
+    slice constants."""
+    from .packets import _emit
+
+    _emit(ctx, {"read-response", "read-response-errors", "write-response", "fragment-response", "multi-response", "generic-response", "generic-response-errors", "session-response", "identity-response"})
     d13_8(ctx)
 
 
